@@ -203,6 +203,26 @@ def extract(repo=None):
     if not m:
         raise TranslatorError("dumper::Read: -all case not found")
     facts["dumper_all_case"] = int(m.group(1))
+    sw = re.search(r"StorageBinListItem \*item = NULL;\s*switch \(opt\)\s*\{(.*?)\n\t\t\}", dr, re.S)
+    if not sw:
+        raise TranslatorError("dumper::Read: item switch not found")
+    dc, pend = {0: "file", 1: "append", facts["dumper_all_case"]: "all"}, []
+    for ln in sw.group(1).splitlines():
+        mm = re.match(r"\s*case (\d+):", ln)
+        if mm:
+            pend.append(int(mm.group(1)))
+        mm = re.match(r"\s*item = &\(this->binList\.Get_(\w+)\(\)\);", ln)
+        if mm:
+            for c in pend:
+                dc[c] = MAPNAME[mm.group(1)]
+            pend = []
+        if re.match(r"\s*item = &cells;", ln):
+            for c in pend:
+                dc[c] = "cell"
+            pend = []
+    if sorted(dc) != list(range(len(facts["dumper_vopts"]))):
+        raise TranslatorError(f"dumper::Read: cases {sorted(dc)} do not cover the {len(facts['dumper_vopts'])} options")
+    facts["dumper_cases"] = [dc[i] for i in range(len(facts["dumper_vopts"]))]
     # USE / SAVE / COPY: which Keywords::KEY_x selects which kind
     rd = strip_comments((pp / "read.cpp").read_text())
     usemap = {"solution": "solution", "pp_assemblage": "pp", "reaction": "reaction", "mix": "mix", "exchange": "exchange",
@@ -245,7 +265,7 @@ def render(f):
          "runner.cpp, dumper.cpp, Phreeqc.h (Rxn_copies), tools/gens/store.py (DEL_NAME). -/",
          "namespace PhreeqcVerif.Gen.StoreTables", ""]
     for name in ("do_run", "run_simulations", "set_use", "copy_use", "do_mixes", "copy_entities", "delete_entities",
-                 "dump_ostream", "list_components", "bin_vopts", "bin_cases", "runner_vopts", "dumper_vopts"):
+                 "dump_ostream", "list_components", "bin_vopts", "bin_cases", "runner_vopts", "dumper_vopts", "dumper_cases"):
         lname = re.sub(r"_(\w)", lambda m: m.group(1).upper(), name)
         o.append(f"def {lname} : List String := {lean_list(f[name])}")
     o.append("def saverFan : List (String × Bool) := " + lean_list(f["saver"], lambda p: f'("{p[0]}", {"true" if p[1] else "false"})'))
